@@ -39,6 +39,10 @@ def float_identity(ctx, scenarios):
                     vals = ex.explain_one(x, y, update_storage=upd, **kw)
             except Exception:
                 break
+            if not isinstance(vals, dict):
+                ctx.violation("float.efficiency", E._config_key(sc), "call %d: explain_one returned %r instead of the importance values"
+                              % (i + 1, vals), {"scenario": sc.to_json()})
+                break
             tot = sum(float(v) for v in vals.values())
             el = float(ex.explained_loss)
             mag = max(mag, abs(float(ex.marginal_loss)), abs(float(ex.model_loss)), max([abs(float(v)) for v in vals.values()] + [0]))
